@@ -50,6 +50,7 @@ func c11Vals() []c11Val {
 		{"regex-special", func() *rt.Node { return S("a.b(c)$1aa") }, "a.b(c)$1aa", true, true},
 		{"floatstr", func() *rt.Node { return S("-3.5") }, "-3.5", true, true},
 		{"boolstr", func() *rt.Node { return S("true") }, "true", true, true},
+		{"unicode-space", func() *rt.Node { return S("\u00a0\u3000x y\u2028\u0085") }, "\u00a0\u3000x y\u2028\u0085", true, true},
 		{"zero-padded", func() *rt.Node { return S("010") }, "010", true, true},
 		{"hexstr", func() *rt.Node { return S("0x1f") }, "0x1f", true, true},
 		{"underscored", func() *rt.Node { return S("1_000") }, "1_000", true, true},
